@@ -92,24 +92,17 @@ Lemma intents_length env prefix g : length (intents env prefix g) = length (Rout
 Proof. unfold intents. apply flat_map_single_length. intros t Ht. now apply intent_of_tag_single. Qed.
 
 Section Compose.
-  Variable isp : N -> bool.
   Variable pw : str -> outcome wt.
   Variable canon : str -> option str.
   Variable gl : str -> bool.
   Variable env : env_t.
   Variable prefix : str.
 
-  Notation centry_of := (centry_of isp env prefix).
-  Notation catalog_of := (catalog_of isp env prefix).
-  Notation render := (render_intent isp).
-
-  (* (1) the commands Model/Consul.v's config generation takes for an entry are C14's [build]
-     of that entry; the model's own consistency check never fires *)
-  Lemma entry_cmds_build r : entry_cmds prefix (centry_of r) = Ok (RouteCmd.build isp env prefix (r_reg r)).
-  Proof.
-    unfold entry_cmds, centry_of. cbn [e_cmds e_tags]. unfold RouteCmd.build.
-    rewrite map_length, intents_length, route_tags_agree, PeanoNat.Nat.eqb_refl. reflexivity.
-  Qed.
+  Notation centry_of := (centry_of pw canon gl env prefix).
+  Notation catalog_of := (catalog_of pw canon gl env prefix).
+  Notation render := render_intent.
+  Notation valid := (fun i : intent => validate pw canon gl (render_intent i)).
+  Notation bld := (table_builder pw canon gl).
 
   Lemma filter_map_comm {A B} (p : B -> bool) (f : A -> B) l :
     filter p (map f l) = map f (filter (fun x => p (f x)) l).
@@ -117,9 +110,31 @@ Section Compose.
     induction l as [|x l IH]; cbn [map filter]; [reflexivity|]. destruct (p (f x)); cbn [map]; now rewrite IH.
   Qed.
 
+  Lemma filter_len_le {A} (p : A -> bool) l : (length (filter p l) <= length l)%nat.
+  Proof. induction l as [|x l IH]; cbn [filter length]; [lia|]. destruct (p x); cbn [length]; lia. Qed.
+
+  (* the intents of an entry whose command build keeps (it validates, /repo d16ce3d) *)
+  Definition vintents (g : reg) : list intent := filter valid (intents env prefix g).
+
+  Lemma build_vintents g : RouteCmd.build pw canon gl env prefix g = map render (vintents g).
+  Proof. unfold RouteCmd.build, vintents. apply filter_map_comm. Qed.
+
+  (* (1) the commands Model/Consul.v's config generation takes for an entry are C14's [build]
+     of that entry; the model's own consistency check (at most one command per routing tag)
+     never fires *)
+  Lemma entry_cmds_build r : entry_cmds prefix (centry_of r) = Ok (RouteCmd.build pw canon gl env prefix (r_reg r)).
+  Proof.
+    unfold entry_cmds, RegistryTable.centry_of. cbn [e_cmds e_tags].
+    assert (length (RouteCmd.build pw canon gl env prefix (r_reg r))
+            <= length (Consul.route_tags prefix (g_tags (r_reg r))))%nat as H.
+    { rewrite route_tags_agree, <- (intents_length env). unfold RouteCmd.build.
+      etransitivity; [apply filter_len_le | now rewrite map_length]. }
+    apply PeanoNat.Nat.leb_le in H. now rewrite H.
+  Qed.
+
   Lemma service_entries_struct keys rs :
     service_entries prefix keys (map centry_of rs) =
-    Ok (flat_map (fun r => RouteCmd.build isp env prefix (r_reg r))
+    Ok (flat_map (fun r => RouteCmd.build pw canon gl env prefix (r_reg r))
                  (filter (fun r => existsb (key_eqb (inst_key (r_node r) (g_id (r_reg r)))) keys) rs)).
   Proof.
     induction rs as [|r rs IH]; cbn [map service_entries filter flat_map]; [reflexivity|].
@@ -130,7 +145,7 @@ Section Compose.
 
   Lemma all_configs_struct rcat m :
     all_configs prefix (catalog_of rcat) m =
-    Ok (flat_map (fun r => RouteCmd.build isp env prefix (r_reg r)) (selected rcat m)).
+    Ok (flat_map (fun r => RouteCmd.build pw canon gl env prefix (r_reg r)) (selected rcat m)).
   Proof.
     induction m as [|[name keys] m IH]; cbn [all_configs selected flat_map]; [reflexivity|].
     fold (selected rcat m). rewrite IH. unfold service_config.
@@ -141,13 +156,15 @@ Section Compose.
       rewrite service_entries_struct. cbn [bind]. now rewrite flat_map_app.
   Qed.
 
-  (* the lines of the pushed config are, in order, C14's commands of the selected entries *)
+  (* the lines of the pushed config are, in order, C14's rendered commands of the validated
+     intents of the selected entries *)
   Theorem config_lines_struct rcat passing :
     config_lines prefix (catalog_of rcat) passing =
-    Ok (map render (flat_map (fun r => intents env prefix (r_reg r)) (selected rcat (group passing)))).
+    Ok (map render (flat_map (fun r => vintents (r_reg r)) (selected rcat (group passing)))).
   Proof.
-    unfold config_lines. rewrite all_configs_struct. unfold RouteCmd.build.
-    now rewrite <- (map_flat_map render (fun r => intents env prefix (r_reg r))).
+    unfold config_lines. rewrite all_configs_struct. f_equal.
+    rewrite (map_flat_map render (fun r => vintents (r_reg r))).
+    apply flat_map_ext. intros r. apply build_vintents.
   Qed.
 
   (* which entries are selected: those matching, by service name and key, a check in [passing] *)
@@ -174,6 +191,7 @@ Section Compose.
       apply filter_In. split; [apply filter_In; split; [exact Hr | apply beq_refl]|].
       apply existsb_exists. exists (inst_key (c_node svc) (c_sid svc)). split; [exact Hkin|]. rewrite Hk. apply key_eqb_refl.
   Qed.
+
   (* an intent stems from a tag that, trimmed, carries the prefix *)
   Lemma intent_tagged g i : In i (intents env prefix g) ->
     existsb (fun t => has_prefix (Consul.trim_space t) prefix) (g_tags g) = true.
@@ -183,7 +201,102 @@ Section Compose.
     apply existsb_exists. exists raw. split; [exact Hraw|]. now rewrite trim_space_agree.
   Qed.
 
-  Section State.
+  Lemma intent_svc_tags g i : In i (intents env prefix g) -> i_svc i = g_name g /\ i_tags i = svc_tags prefix g.
+  Proof.
+    unfold intents. intros Hi. apply in_flat_map in Hi as (tag & _ & Hi). unfold intent_of_tag in Hi.
+    destruct (parse_url_prefix_tag env prefix tag) as [[r o]|]; [|destruct Hi].
+    destruct (fold_left _ _ _) as [[dst w] ro]. destruct Hi as [<-|[]]. split; reflexivity.
+  Qed.
+
+  (* ================= text -> table, with a manual part on top ================= *)
+  Lemma split_byte_nonempty s c : exists w ws, split_byte s c = w :: ws.
+  Proof.
+    induction s as [|x s [w [ws IH]]]; cbn [split_byte]; [eauto|].
+    destruct (x =? c); [eauto|]. rewrite IH. eauto.
+  Qed.
+  Lemma split_byte_app_sep a b c : split_byte (a ++ c :: b) c = split_byte a c ++ split_byte b c.
+  Proof.
+    induction a as [|x a IH]; cbn [app split_byte].
+    - now rewrite N.eqb_refl.
+    - destruct (x =? c); [now rewrite IH|]. rewrite IH.
+      destruct (split_byte_nonempty a c) as [w [ws ->]]. reflexivity.
+  Qed.
+
+  Lemma parse_good_lines (ls : list str) :
+    Forall (good_line pw canon gl) ls ->
+    parse pw (config_text ls) = Ok (flat_map (fun l => olist (ldef pw l)) ls).
+  Proof.
+    intros Hall. rewrite Forall_forall in Hall.
+    destruct ls as [|l0 ls0] eqn:Els; [reflexivity|]. rewrite <- Els in *.
+    unfold parse, config_text. rewrite split_join.
+    - apply parse_lines_each. intros l Hl. destruct (Hall l Hl) as (_ & Hcr & d & Hd & _).
+      rewrite drop_cr_lacks by assumption. unfold ldef. now rewrite Hd.
+    - rewrite Els. discriminate.
+    - apply forallb_forall. intros l Hl. now destruct (Hall l Hl).
+  Qed.
+
+  (* the combined text of watchBackend: lines each of which is an acceptable 'route add' on its
+     own, newline, manual text whose commands are all acceptable 'route add's.  The table holds
+     the targets of the lines and of the manual commands and nothing else. *)
+  Theorem table_with_manual (ls : list str) (m : str) (dm : list def) :
+    Forall (good_line pw canon gl) ls ->
+    parse pw m = Ok dm -> Forall (addable canon gl) dm ->
+    exists t, new_table pw canon gl (next_text (config_text ls) m) = Ok t
+      /\ (forall l d, In l ls -> parse_line pw l = Ok (Some d) -> def_target canon t d)
+      /\ (forall d, In d dm -> def_target canon t d)
+      /\ (forall x, In x (flat t) ->
+             (exists l d url, In l ls /\ parse_line pw l = Ok (Some d) /\ canon (d_dst d) = Some url /\ x = trip d url)
+             \/ (exists d url, In d dm /\ canon (d_dst d) = Some url /\ x = trip d url)).
+  Proof.
+    intros Hall Hm Hadd_m. pose proof (parse_good_lines ls Hall) as Hs.
+    rewrite Forall_forall in Hall.
+    set (ds := flat_map (fun l => olist (ldef pw l)) ls) in *.
+    assert (parse pw (next_text (config_text ls) m) = Ok (ds ++ dm)) as Hparse.
+    { unfold parse, next_text in *. rewrite split_byte_app_sep. now apply parse_lines_app. }
+    assert (Forall (addable canon gl) ds) as Hadd_s.
+    { apply Forall_forall. intros d Hd. apply in_flat_map in Hd as (l & Hl & Hd).
+      destruct (Hall l Hl) as (_ & _ & d' & Hd' & Ha). unfold ldef in Hd. rewrite Hd' in Hd.
+      destruct Hd as [<-|[]]. exact Ha. }
+    assert (Forall (addable canon gl) (ds ++ dm)) as Hadd by (apply Forall_app; now split).
+    destruct (run_from_adds canon gl _ [] Hadd) as (t0 & Hrun & _ & Hin & Horig).
+    exists (sort_table t0). unfold new_table. rewrite Hparse. cbn [bind]. unfold TableCmd.run. rewrite Hrun. cbn [bind].
+    split; [reflexivity|]. split; [|split].
+    - intros l d Hl Hd.
+      assert (In d (ds ++ dm)) as Hdin.
+      { apply in_or_app. left. apply in_flat_map. exists l. split; auto. unfold ldef. rewrite Hd. now left. }
+      destruct (Hin d Hdin) as (url & tg & Hu & Htg & Hsame). exists url, tg.
+      split; [exact Hu|]. split; [now apply (proj2 (in_flat_sort _ _)) | exact Hsame].
+    - intros d Hd. destruct (Hin d (in_or_app _ _ _ (or_intror Hd))) as (url & tg & Hu & Htg & Hsame).
+      exists url, tg. split; [exact Hu|]. split; [now apply (proj2 (in_flat_sort _ _)) | exact Hsame].
+    - intros x Hx. apply (proj1 (in_flat_sort _ _)) in Hx.
+      destruct (Horig x Hx) as [[]|(d & url & Hd & Hu & ->)].
+      apply in_app_or in Hd as [Hd|Hd]; [left | right; eauto].
+      apply in_flat_map in Hd as (l & Hl & Hd). unfold ldef in Hd.
+      destruct (parse_line pw l) as [[d'|]| |] eqn:E; cbn [olist In] in Hd; try contradiction.
+      destruct Hd as [<-|[]]. exists l, d', url. auto.
+  Qed.
+
+  (* sorting the generated lines only permutes the intents *)
+  Lemma insert_desc_map {A} (f : A -> str) x ys :
+    exists zs, Consul.insert_desc (f x) (map f ys) = map f zs /\ forall z, In z zs <-> z = x \/ In z ys.
+  Proof.
+    induction ys as [|y ys (zs & E & H)]; cbn [map Consul.insert_desc].
+    - exists [x]. split; [reflexivity|]. intros z. cbn [In]. intuition auto.
+    - destruct (str_ltb (f x) (f y)).
+      + exists (y :: zs). rewrite E. split; [reflexivity|]. intros z. cbn [In]. rewrite H. intuition auto.
+      + exists (x :: y :: ys). split; [reflexivity|]. intros z. cbn [In]. intuition auto.
+  Qed.
+  Lemma sort_desc_map {A} (f : A -> str) xs :
+    exists ys, Consul.sort_desc (map f xs) = map f ys /\ forall x, In x ys <-> In x xs.
+  Proof.
+    unfold Consul.sort_desc. induction xs as [|x xs (ys & E & H)]; cbn [map fold_right].
+    - exists []. split; reflexivity.
+    - rewrite E. destruct (insert_desc_map f x ys) as (zs & E' & H'). exists zs. split; [exact E'|].
+      intros z. rewrite H'. cbn [In]. rewrite H. intuition auto.
+  Qed.
+
+  (* ================= the headline: registry state -> table, for ALL catalogs ================= *)
+  Section Headline.
     Variable status : list str.
     Variable strict : bool.
     Variable checks : list hcheck.
@@ -218,308 +331,221 @@ Section Compose.
         apply watch_passing_iff; rewrite Hon, Hos; [exact (own_tagged r i Hr Hi)|].
         split; [exact Hc|]. split; [exact Hsvc | exact Hh].
     Qed.
-  End State.
-  (* ================= text -> table, with a manual part on top ================= *)
-  Lemma split_byte_nonempty s c : exists w ws, split_byte s c = w :: ws.
-  Proof.
-    induction s as [|x s [w [ws IH]]]; cbn [split_byte]; [eauto|].
-    destruct (x =? c); [eauto|]. rewrite IH. eauto.
-  Qed.
-  Lemma split_byte_app_sep a b c : split_byte (a ++ c :: b) c = split_byte a c ++ split_byte b c.
-  Proof.
-    induction a as [|x a IH]; cbn [app split_byte].
-    - now rewrite N.eqb_refl.
-    - destruct (x =? c); [now rewrite IH|]. rewrite IH.
-      destruct (split_byte_nonempty a c) as [w [ws ->]]. reflexivity.
-  Qed.
 
-  Lemma parse_rendered (is : list intent) :
-    Forall (fun i => expr isp pw canon gl i = true) is ->
-    parse pw (config_text (map render is)) = Ok (flat_map (fun i => olist (idef pw i)) is).
-  Proof.
-    intros Hall. rewrite Forall_forall in Hall.
-    destruct is as [|i0 is0] eqn:Eis; [reflexivity|]. rewrite <- Eis in *.
-    unfold parse, config_text. rewrite split_join.
-    - apply parse_lines_map. intros i Hi.
-      destruct (render_parse_line isp pw canon gl i (Hall i Hi)) as (d & Hd & Hp & He).
-      rewrite drop_cr_id by assumption. rewrite Hp. unfold idef. now rewrite Hd.
-    - rewrite Eis. discriminate.
-    - apply forallb_forall. intros l Hl. apply in_map_iff in Hl as (i & <- & Hi).
-      apply render_lacks_nl with (pw := pw) (canon := canon) (gl := gl). now apply Hall.
-  Qed.
+    (* "healthy, named, advertising the prefix, and the command validates" *)
+    Definition routed_intent (i : intent) : Prop :=
+      exists r, In r rcat /\ g_name (r_reg r) <> [] /\ inst_healthy status strict checks r
+                /\ advertises_intent env prefix r i /\ emitted pw canon gl i.
 
-  (* the combined text of watchBackend: generated commands, newline, manual text whose
-     commands are all acceptable 'route add's.  The table holds the targets of the generated
-     commands and of the manual commands and nothing else. *)
-  Theorem table_with_manual (is : list intent) (m : str) (dm : list def) :
-    Forall (fun i => expr isp pw canon gl i = true) is ->
-    parse pw m = Ok dm -> Forall (addable canon gl) dm ->
-    exists t, new_table pw canon gl (next_text (config_text (map render is)) m) = Ok t
-      /\ (forall i, In i is -> exists d url tg, intent_def pw i = Ok d /\ canon (i_dst i) = Some url
-             /\ In (lower (fst (hostpath (i_route i))), snd (hostpath (i_route i)), tg) (flat t)
-             /\ same_target (i_svc i) url (w_clamp (d_w d)) (i_tags i) tg = true)
-      /\ (forall d, In d dm -> exists url tg, canon (d_dst d) = Some url
-             /\ In (lower (fst (hostpath (d_src d))), snd (hostpath (d_src d)), tg) (flat t)
-             /\ same_target (d_svc d) url (w_clamp (d_w d)) (d_tags d) tg = true)
-      /\ (forall x, In x (flat t) ->
-             (exists i d url, In i is /\ intent_def pw i = Ok d /\ canon (i_dst i) = Some url /\ x = trip d url)
-             \/ (exists d url, In d dm /\ canon (d_dst d) = Some url /\ x = trip d url)).
-  Proof.
-    intros Hall Hm Hadd_m. pose proof (parse_rendered is Hall) as Hs.
-    rewrite Forall_forall in Hall.
-    set (ds := flat_map (fun i => olist (idef pw i)) is) in *.
-    assert (parse pw (next_text (config_text (map render is)) m) = Ok (ds ++ dm)) as Hparse.
-    { unfold parse, next_text in *. rewrite split_byte_app_sep. now apply parse_lines_app. }
-    assert (Forall (addable canon gl) ds) as Hadd_s.
-    { apply Forall_forall. intros d Hd. apply in_flat_map in Hd as (i & Hi & Hd).
-      destruct (idef pw i) as [d'|] eqn:E; [|destruct Hd]. destruct Hd as [<-|[]].
-      eapply idef_addable; eauto. }
-    assert (Forall (addable canon gl) (ds ++ dm)) as Hadd by (apply Forall_app; now split).
-    destruct (run_from_adds canon gl _ [] Hadd) as (t0 & Hrun & _ & Hin & Horig).
-    exists (sort_table t0). unfold new_table. rewrite Hparse. cbn [bind]. unfold TableCmd.run. rewrite Hrun. cbn [bind].
-    split; [reflexivity|]. split; [|split].
-    - intros i Hi. destruct (render_parse_line isp pw canon gl i (Hall i Hi)) as (d & Hd & _).
-      assert (In d (ds ++ dm)) as Hdin.
-      { apply in_or_app. left. apply in_flat_map. exists i. split; auto. unfold idef. rewrite Hd. now left. }
-      destruct (Hin d Hdin) as (url & tg & Hu & Htg & Hsame).
-      destruct (intent_def_fields pw i d Hd) as (_ & F1 & F2 & F3 & F4 & _). rewrite F1, F2, F3, F4 in *.
-      exists d, url, tg. split; [exact Hd|]. split; [exact Hu|].
-      split; [now apply (proj2 (in_flat_sort _ _)) | exact Hsame].
-    - intros d Hd. destruct (Hin d (in_or_app _ _ _ (or_intror Hd))) as (url & tg & Hu & Htg & Hsame).
-      exists url, tg. split; [exact Hu|]. split; [now apply (proj2 (in_flat_sort _ _)) | exact Hsame].
-    - intros x Hx. apply (proj1 (in_flat_sort _ _)) in Hx.
-      destruct (Horig x Hx) as [[]|(d & url & Hd & Hu & ->)].
-      apply in_app_or in Hd as [Hd|Hd]; [left | right; eauto].
-      apply in_flat_map in Hd as (i & Hi & Hd). destruct (idef pw i) as [d'|] eqn:E; [|destruct Hd]. destruct Hd as [<-|[]].
-      exists i, d', url. unfold idef in E. destruct (intent_def pw i) as [d0| |] eqn:E0; try discriminate.
-      inversion E; subst d0. repeat split; auto.
-      destruct (intent_def_fields pw i d' E0) as (_ & _ & _ & F3 & _). now rewrite <- F3.
-  Qed.
-
-  (* sorting the generated lines only permutes the intents *)
-  Lemma insert_desc_map {A} (f : A -> str) x ys :
-    exists zs, Consul.insert_desc (f x) (map f ys) = map f zs /\ forall z, In z zs <-> z = x \/ In z ys.
-  Proof.
-    induction ys as [|y ys (zs & E & H)]; cbn [map Consul.insert_desc].
-    - exists [x]. split; [reflexivity|]. intros z. cbn [In]. intuition auto.
-    - destruct (str_ltb (f x) (f y)).
-      + exists (y :: zs). rewrite E. split; [reflexivity|]. intros z. cbn [In]. rewrite H. intuition auto.
-      + exists (x :: y :: ys). split; [reflexivity|]. intros z. cbn [In]. intuition auto.
-  Qed.
-  Lemma sort_desc_map {A} (f : A -> str) xs :
-    exists ys, Consul.sort_desc (map f xs) = map f ys /\ forall x, In x ys <-> In x xs.
-  Proof.
-    unfold Consul.sort_desc. induction xs as [|x xs (ys & E & H)]; cbn [map fold_right].
-    - exists []. split; reflexivity.
-    - rewrite E. destruct (insert_desc_map f x ys) as (zs & E' & H'). exists zs. split; [exact E'|].
-      intros z. rewrite H'. cbn [In]. rewrite H. intuition auto.
-  Qed.
-  Lemma intent_svc_tags g i : In i (intents env prefix g) -> i_svc i = g_name g /\ i_tags i = svc_tags prefix g.
-  Proof.
-    unfold intents. intros Hi. apply in_flat_map in Hi as (tag & _ & Hi). unfold intent_of_tag in Hi.
-    destruct (parse_url_prefix_tag env prefix tag) as [[r o]|]; [|destruct Hi].
-    destruct (fold_left _ _ _) as [[dst w] ro]. destruct Hi as [<-|[]]. split; reflexivity.
-  Qed.
-
-  (* ================= the headline: registry state -> table ================= *)
-  Section Headline.
-    Variable status : list str.
-    Variable strict : bool.
-    Variable checks : list hcheck.
-    Variable rcat : list rentry.
-    Hypothesis Hcons : consistent checks rcat.
-    (* the healthy entries are within what the command language can express (C14's domain) *)
-    Hypothesis Hexpr : forall r, In r rcat -> inst_healthy status strict checks r ->
-                                 expressible isp pw canon gl env prefix (r_reg r) = true.
-
-    Let healthy_adv (i : intent) : Prop :=
-      exists r, In r rcat /\ inst_healthy status strict checks r /\ advertises_intent env prefix r i.
-
-    (* the pushed text is the rendering of exactly the intents of the healthy instances *)
+    (* the pushed text is the rendering of exactly the routed intents *)
     Lemma registry_intents :
-      exists is1, registry_config isp env prefix status strict checks rcat = Ok (config_text (map render is1))
-                  /\ Forall (fun i => expr isp pw canon gl i = true) is1
-                  /\ forall i, In i is1 <-> healthy_adv i.
+      exists is1, registry_config pw canon gl env prefix status strict checks rcat = Ok (config_text (map render is1))
+                  /\ Forall (good_line pw canon gl) (map render is1)
+                  /\ forall i, In i is1 <-> routed_intent i.
     Proof.
       unfold registry_config, svc_config, make_config. rewrite config_lines_struct. cbn [bind].
-      set (is0 := flat_map (fun r => intents env prefix (r_reg r))
+      set (is0 := flat_map (fun r => vintents (r_reg r))
                            (selected rcat (group (watch_passing prefix status strict checks)))).
       destruct (sort_desc_map render is0) as (is1 & E & Hperm). exists is1. rewrite E.
       split; [reflexivity|].
-      assert (forall i, In i is0 <-> healthy_adv i) as Hchar.
+      assert (forall i, In i is0 <-> routed_intent i) as Hchar.
       { intros i. unfold is0. rewrite in_flat_map. split.
-        - intros [r [Hsel Hi]]. apply (selected_healthy status strict checks rcat Hcons r i Hi) in Hsel
-            as [Hr [_ Hh]]. exists r. split; [exact Hr | split; [exact Hh | exact Hi]].
-        - intros [r [Hr [Hh Hi]]]. exists r. split; [|exact Hi].
-          apply (selected_healthy status strict checks rcat Hcons r i Hi). split; [exact Hr|]. split; [|exact Hh].
-          pose proof (Hexpr r Hr Hh) as He. unfold expressible in He. rewrite forallb_forall in He.
-          destruct (expr_inv isp pw canon gl i (He i Hi)) as (Hs & _).
-          destruct (intent_svc_tags _ _ Hi) as [Hn _]. rewrite Hn in Hs. intros E0. rewrite E0 in Hs. discriminate. }
+        - intros [r [Hsel Hi]]. unfold vintents in Hi. apply filter_In in Hi as [Hi Hv].
+          apply (selected_healthy r i Hi) in Hsel as [Hr [Hne Hh]]. exists r.
+          split; [exact Hr|]. split; [exact Hne|]. split; [exact Hh|]. split; [exact Hi | exact Hv].
+        - intros [r [Hr [Hne [Hh [Hi Hv]]]]]. exists r. split.
+          + apply (selected_healthy r i Hi). split; [exact Hr|]. split; [exact Hne | exact Hh].
+          + unfold vintents. apply filter_In. split; [exact Hi | exact Hv]. }
       split.
-      - apply Forall_forall. intros i Hi. apply Hperm, Hchar in Hi as [r [Hr [Hh Hi]]].
-        pose proof (Hexpr r Hr Hh) as He. unfold expressible in He. rewrite forallb_forall in He. exact (He i Hi).
+      - apply Forall_forall. intros l Hl. apply in_map_iff in Hl as [i [<- Hi]].
+        apply Hperm, Hchar in Hi as [r [_ [_ [_ [_ Hv]]]]]. now apply validate_good_line.
       - intros i. rewrite Hperm. apply Hchar.
     Qed.
 
-    (* C01, all layers, with the operator's 'route add' commands on top: the combined text is
-       accepted; every healthy instance has a target for every prefix it advertises; every
-       manual command has its target; and every target of the table is one of these. *)
+    (* what the table of a registry state (plus manual 'route add' definitions [dm]) holds *)
+    Definition table_holds (dm : list def) (t : table) : Prop :=
+      (* every healthy instance has the target of every advertised prefix whose command validates *)
+      (forall i, routed_intent i -> exists d, parse_line pw (render i) = Ok (Some d) /\ def_target canon t d)
+      (* for an expressible intent that is the target the registration stands for *)
+      /\ (forall r i, In r rcat -> inst_healthy status strict checks r -> advertises_intent env prefix r i ->
+                      intent_expressible pw canon gl i = true -> has_target pw canon prefix t r i)
+      (* every manual command has its target *)
+      /\ (forall d, In d dm -> def_target canon t d)
+      (* and the table holds nothing else *)
+      /\ (forall x, In x (flat t) ->
+             (exists i d url, routed_intent i /\ parse_line pw (render i) = Ok (Some d)
+                              /\ canon (d_dst d) = Some url /\ x = trip d url)
+             \/ (exists d url, In d dm /\ canon (d_dst d) = Some url /\ x = trip d url)).
+
+    Lemma table_holds_unfold dm t :
+      table_holds dm t <->
+      (forall i, routed_intent i -> exists d, parse_line pw (render i) = Ok (Some d) /\ def_target canon t d)
+      /\ (forall r i, In r rcat -> inst_healthy status strict checks r -> advertises_intent env prefix r i ->
+                      intent_expressible pw canon gl i = true -> has_target pw canon prefix t r i)
+      /\ (forall d, In d dm -> def_target canon t d)
+      /\ (forall x, In x (flat t) ->
+             (exists i d url, routed_intent i /\ parse_line pw (render i) = Ok (Some d)
+                              /\ canon (d_dst d) = Some url /\ x = trip d url)
+             \/ (exists d url, In d dm /\ canon (d_dst d) = Some url /\ x = trip d url)).
+    Proof. reflexivity. Qed.
+    Lemma routed_intent_unfold i :
+      routed_intent i <->
+      exists r, In r rcat /\ g_name (r_reg r) <> [] /\ inst_healthy status strict checks r
+                /\ advertises_intent env prefix r i /\ emitted pw canon gl i.
+    Proof. reflexivity. Qed.
+
+    Lemma expressible_routed r i : In r rcat -> inst_healthy status strict checks r ->
+      advertises_intent env prefix r i -> intent_expressible pw canon gl i = true -> routed_intent i.
+    Proof.
+      intros Hr Hh Hi He. exists r. split; [exact Hr|]. split; [|split; [exact Hh|split; [exact Hi|]]].
+      - destruct (expr_inv pw canon gl i He) as (Hs & _).
+        destruct (intent_svc_tags _ _ Hi) as [Hn _]. rewrite Hn in Hs. intros E0. rewrite E0 in Hs. discriminate.
+      - exact (expressible_validates pw canon gl i He).
+    Qed.
+
+    (* C01, all layers, ALL catalogs, with the operator's 'route add' commands on top *)
     Theorem svc_table_with_manual m dm :
       parse pw m = Ok dm -> Forall (addable canon gl) dm ->
       exists text t,
-        registry_config isp env prefix status strict checks rcat = Ok text
-        /\ new_table pw canon gl (next_text text m) = Ok t
-        /\ (forall r i, In r rcat -> inst_healthy status strict checks r -> advertises_intent env prefix r i ->
-                        has_target pw canon prefix t r i)
-        /\ (forall d, In d dm -> exists url tg, canon (d_dst d) = Some url
-               /\ In (lower (fst (hostpath (d_src d))), snd (hostpath (d_src d)), tg) (flat t)
-               /\ same_target (d_svc d) url (w_clamp (d_w d)) (d_tags d) tg = true)
-        /\ (forall x, In x (flat t) ->
-               (exists r i d url, In r rcat /\ inst_healthy status strict checks r /\ advertises_intent env prefix r i
-                                  /\ intent_def pw i = Ok d /\ canon (i_dst i) = Some url /\ x = trip d url)
-               \/ (exists d url, In d dm /\ canon (d_dst d) = Some url /\ x = trip d url)).
+        registry_config pw canon gl env prefix status strict checks rcat = Ok text
+        /\ new_table pw canon gl (next_text text m) = Ok t /\ table_holds dm t.
     Proof.
-      intros Hm Hadd. destruct registry_intents as (is1 & Htext & Hex & Hchar).
-      destruct (table_with_manual is1 m dm Hex Hm Hadd) as (t & Ht & Hin & Hman & Horig).
-      exists (config_text (map render is1)), t. split; [exact Htext|]. split; [exact Ht|]. split; [|split; [exact Hman|]].
-      - intros r i Hr Hh Hi. assert (In i is1) as Hi1 by (apply Hchar; exists r; split; [exact Hr | split; [exact Hh | exact Hi]]).
-        destruct (Hin i Hi1) as (d & url & tg & H1 & H2 & H3 & H4).
-        destruct (intent_svc_tags _ _ Hi) as [Hn Htg]. rewrite Hn, Htg in H4.
-        exists d, url, tg. split; [exact H1|]. split; [exact H2|]. split; [exact H3 | exact H4].
-      - intros x Hx. destruct (Horig x Hx) as [(i & d & url & Hi & H1 & H2 & H3)|R]; [left | now right].
-        apply Hchar in Hi as [r [Hr [Hh Hi]]]. exists r, i, d, url.
-        split; [exact Hr|]. split; [exact Hh|]. split; [exact Hi|]. split; [exact H1|]. split; [exact H2 | exact H3].
+      intros Hm Hadd. destruct registry_intents as (is1 & Htext & Hgood & Hchar).
+      destruct (table_with_manual (map render is1) m dm Hgood Hm Hadd) as (t & Ht & Hin & Hman & Horig).
+      exists (config_text (map render is1)), t. split; [exact Htext|]. split; [exact Ht|].
+      assert (forall i, routed_intent i -> exists d, parse_line pw (render i) = Ok (Some d) /\ def_target canon t d) as H1.
+      { intros i Hi. pose proof Hi as [r [_ [_ [_ [_ Hv]]]]].
+        destruct (validate_good_line pw canon gl i Hv) as (_ & _ & d & Hd & _). exists d. split; [exact Hd|].
+        apply (Hin (render i) d); [|exact Hd]. apply in_map. now apply Hchar. }
+      split; [exact H1|]. split; [|split; [exact Hman|]].
+      - intros r i Hr Hh Hi He. destruct (H1 i (expressible_routed r i Hr Hh Hi He)) as [d [Hd (url & tg & Hu & Htg & Hs)]].
+        destruct (render_parse_line pw canon gl i He) as (d' & Hd' & Hp & _). rewrite Hp in Hd. inversion Hd; subst d'.
+        destruct (intent_def_fields pw i d Hd') as (_ & F1 & F2 & F3 & F4 & _). rewrite F1, F2, F3, F4 in *.
+        destruct (intent_svc_tags _ _ Hi) as [Hn Htags]. rewrite Hn, Htags in Hs.
+        exists d, url, tg. split; [exact Hd'|]. split; [exact Hu|]. split; [exact Htg | exact Hs].
+      - intros x Hx. destruct (Horig x Hx) as [(l & d & url & Hl & Hd & Hu & E)|R]; [left | now right].
+        apply in_map_iff in Hl as [i [<- Hi]]. exists i, d, url.
+        split; [now apply Hchar|]. split; [exact Hd|]. split; [exact Hu | exact E].
     Qed.
-
-    (* C01_svc_table_iff: the table of the pushed config itself *)
-    Theorem svc_table_iff :
-      exists text t,
-        registry_config isp env prefix status strict checks rcat = Ok text
-        /\ new_table pw canon gl text = Ok t
-        /\ (forall r i, In r rcat -> inst_healthy status strict checks r -> advertises_intent env prefix r i ->
-                        has_target pw canon prefix t r i)
-        /\ (forall x, In x (flat t) ->
-               exists r i d url, In r rcat /\ inst_healthy status strict checks r /\ advertises_intent env prefix r i
-                                 /\ intent_def pw i = Ok d /\ canon (i_dst i) = Some url /\ x = trip d url).
-    Proof.
-      destruct registry_intents as (is1 & Htext & Hex & Hchar).
-      destruct (table_on_domain isp pw canon gl is1 Hex) as (t & Ht & Hin & Horig).
-      exists (config_text (map render is1)), t. split; [exact Htext|]. split; [exact Ht|]. split.
-      - intros r i Hr Hh Hi. assert (In i is1) as Hi1 by (apply Hchar; exists r; split; [exact Hr | split; [exact Hh | exact Hi]]).
-        destruct (Hin i Hi1) as (d & url & tg & H1 & H2 & H3 & H4).
-        destruct (intent_svc_tags _ _ Hi) as [Hn Htg]. rewrite Hn, Htg in H4.
-        exists d, url, tg. split; [exact H1|]. split; [exact H2|]. split; [exact H3 | exact H4].
-      - intros x Hx. destruct (Horig x Hx) as (i & d & url & Hi & H1 & H2 & H3).
-        apply Hchar in Hi as [r [Hr [Hh Hi]]]. exists r, i, d, url.
-        split; [exact Hr|]. split; [exact Hh|]. split; [exact Hi|]. split; [exact H1|]. split; [exact H2 | exact H3].
-    Qed.
-    (* ================= the ACTIVE table of the watch loop ================= *)
-    Notation bld := (table_builder pw canon gl).
 
     Lemma parse_empty : parse pw [] = Ok [].
     Proof. reflexivity. Qed.
 
+    (* C01_svc_table_iff: the table of the pushed config itself *)
+    Theorem svc_table_iff :
+      exists text t,
+        registry_config pw canon gl env prefix status strict checks rcat = Ok text
+        /\ new_table pw canon gl text = Ok t /\ table_holds [] t.
+    Proof.
+      destruct registry_intents as (is1 & Htext & Hgood & Hchar).
+      destruct (lines_table pw canon gl (map render is1) Hgood) as (t & Ht & Hin & Horig).
+      exists (config_text (map render is1)), t. split; [exact Htext|]. split; [exact Ht|].
+      assert (forall i, routed_intent i -> exists d, parse_line pw (render i) = Ok (Some d) /\ def_target canon t d) as H1.
+      { intros i Hi. pose proof Hi as [r [_ [_ [_ [_ Hv]]]]].
+        destruct (validate_good_line pw canon gl i Hv) as (_ & _ & d & Hd & _). exists d. split; [exact Hd|].
+        apply (Hin (render i) d); [|exact Hd]. apply in_map. now apply Hchar. }
+      split; [exact H1|]. split; [|split; [intros d []|]].
+      - intros r i Hr Hh Hi He. destruct (H1 i (expressible_routed r i Hr Hh Hi He)) as [d [Hd (url & tg & Hu & Htg & Hs)]].
+        destruct (render_parse_line pw canon gl i He) as (d' & Hd' & Hp & _). rewrite Hp in Hd. inversion Hd; subst d'.
+        destruct (intent_def_fields pw i d Hd') as (_ & F1 & F2 & F3 & F4 & _). rewrite F1, F2, F3, F4 in *.
+        destruct (intent_svc_tags _ _ Hi) as [Hn Htags]. rewrite Hn, Htags in Hs.
+        exists d, url, tg. split; [exact Hd'|]. split; [exact Hu|]. split; [exact Htg | exact Hs].
+      - intros x Hx. destruct (Horig x Hx) as (l & d & url & Hl & Hd & Hu & E). left.
+        apply in_map_iff in Hl as [i [<- Hi]]. exists i, d, url.
+        split; [now apply Hchar|]. split; [exact Hd|]. split; [exact Hu | exact E].
+    Qed.
+
+    (* ================= the ACTIVE table of the watch loop ================= *)
     (* After ANY history of deliveries whose last service text is the config of the registry
        state (checks, rcat) and whose last manual text [m] consists of acceptable 'route add'
-       commands: the active table has a target for every (healthy instance, advertised prefix),
-       one for every manual command, and nothing else. *)
+       commands, the active table holds exactly the routed intents' and the manual targets. *)
     Theorem active_table_with_manual (w : wstate table) h e m dm :
       inv table bld w ->
-      registry_config isp env prefix status strict checks rcat = Ok (last_svc (h ++ [e]) (w_svc w)) ->
+      registry_config pw canon gl env prefix status strict checks rcat = Ok (last_svc (h ++ [e]) (w_svc w)) ->
       last_man (h ++ [e]) (w_man w) = m ->
       parse pw m = Ok dm -> Forall (addable canon gl) dm ->
-      let t := w_active (Watch.run table bld w (h ++ [e])) in
-      (forall r i, In r rcat -> inst_healthy status strict checks r -> advertises_intent env prefix r i ->
-                   has_target pw canon prefix t r i)
-      /\ (forall d, In d dm -> exists url tg, canon (d_dst d) = Some url
-             /\ In (lower (fst (hostpath (d_src d))), snd (hostpath (d_src d)), tg) (flat t)
-             /\ same_target (d_svc d) url (w_clamp (d_w d)) (d_tags d) tg = true)
-      /\ (forall x, In x (flat t) ->
-             (exists r i d url, In r rcat /\ inst_healthy status strict checks r /\ advertises_intent env prefix r i
-                                /\ intent_def pw i = Ok d /\ canon (i_dst i) = Some url /\ x = trip d url)
-             \/ (exists d url, In d dm /\ canon (d_dst d) = Some url /\ x = trip d url)).
+      table_holds dm (w_active (Watch.run table bld w (h ++ [e]))).
     Proof.
       intros Hw Hsvc Hman Hm Hadd.
-      destruct (svc_table_with_manual m dm Hm Hadd) as (text & t0 & Htext & Ht & H1 & H2 & H3).
+      destruct (svc_table_with_manual m dm Hm Hadd) as (text & t0 & Htext & Ht & Hholds).
       rewrite Htext in Hsvc. inversion Hsvc as [Etext].
       assert (bld (next_text (last_svc (h ++ [e]) (w_svc w)) (last_man (h ++ [e]) (w_man w))) = Some t0) as Hb
         by (rewrite <- Etext, Hman; unfold table_builder; now rewrite Ht).
-      destruct (watch_quiescent table bld w h e t0 Hw Hb) as [Ha _].
-      cbn zeta. rewrite Ha. split; [exact H1 | split; [exact H2 | exact H3]].
+      destruct (watch_quiescent table bld w h e t0 Hw Hb) as [Ha _]. now rewrite Ha.
     Qed.
 
-    (* the same with no manual overrides: the active table has a target for (instance, prefix)
-       if and only if the instance is healthy and advertises the prefix *)
     Theorem active_table_iff (w : wstate table) h e :
       inv table bld w ->
-      registry_config isp env prefix status strict checks rcat = Ok (last_svc (h ++ [e]) (w_svc w)) ->
+      registry_config pw canon gl env prefix status strict checks rcat = Ok (last_svc (h ++ [e]) (w_svc w)) ->
       last_man (h ++ [e]) (w_man w) = [] ->
-      let t := w_active (Watch.run table bld w (h ++ [e])) in
-      (forall r i, In r rcat -> inst_healthy status strict checks r -> advertises_intent env prefix r i ->
-                   has_target pw canon prefix t r i)
-      /\ (forall x, In x (flat t) ->
-             exists r i d url, In r rcat /\ inst_healthy status strict checks r /\ advertises_intent env prefix r i
-                               /\ intent_def pw i = Ok d /\ canon (i_dst i) = Some url /\ x = trip d url).
+      table_holds [] (w_active (Watch.run table bld w (h ++ [e]))).
     Proof.
-      intros Hw Hsvc Hman.
-      destruct (active_table_with_manual w h e [] [] Hw Hsvc Hman parse_empty (Forall_nil _)) as (H1 & _ & H3).
-      cbn zeta in *. split; [exact H1|]. intros x Hx. destruct (H3 x Hx) as [R|(d & url & [] & _)]. exact R.
+      intros Hw Hsvc Hman. exact (active_table_with_manual w h e [] [] Hw Hsvc Hman parse_empty (Forall_nil _)).
     Qed.
 
     (* An instance that has become unhealthy is absent from every table installed after that
        state was observed: from the delivery of the state's config on, until a newer service
        config arrives, every installed table is NewTable of that config plus some manual text,
-       and - when that manual text consists of acceptable 'route add' commands - each of its
-       targets belongs to an instance healthy in that state or to a manual command. *)
+       and - when that manual text consists of acceptable 'route add' commands - it holds
+       exactly the routed intents' and the manual targets. *)
     Theorem unhealthy_absent_table (w : wstate table) text h1 h2 tt :
-      registry_config isp env prefix status strict checks rcat = Ok text ->
+      registry_config pw canon gl env prefix status strict checks rcat = Ok text ->
       forallb is_man h2 = true ->
       In tt (installs table bld w (h1 ++ Svc text :: h2)) ->
       In tt (installs table bld w h1) \/
       exists m T, tt = next_text text m /\ new_table pw canon gl tt = Ok T /\
-        forall dm, parse pw m = Ok dm -> Forall (addable canon gl) dm ->
-          forall x, In x (flat T) ->
-            (exists r i d url, In r rcat /\ inst_healthy status strict checks r /\ advertises_intent env prefix r i
-                               /\ intent_def pw i = Ok d /\ canon (i_dst i) = Some url /\ x = trip d url)
-            \/ (exists d url, In d dm /\ canon (d_dst d) = Some url /\ x = trip d url).
+        forall dm, parse pw m = Ok dm -> Forall (addable canon gl) dm -> table_holds dm T.
     Proof.
       intros Htext Hman Hin. rewrite installs_app in Hin. apply in_app_or in Hin as [Hin|Hin]; [now left|]. right.
       destruct (installs_after_svc table bld _ _ _ Hman tt Hin) as [m [Ett Hb]].
       unfold table_builder in Hb. destruct (new_table pw canon gl tt) as [T| |] eqn:ET; try congruence.
       exists m, T. split; [exact Ett|]. split; [reflexivity|].
-      intros dm Hm Hadd. destruct (svc_table_with_manual m dm Hm Hadd) as (text' & t0 & Htext' & Ht & _ & _ & H3).
-      rewrite Htext in Htext'. inversion Htext' as [E]. rewrite <- E, <- Ett, ET in Ht. inversion Ht. exact H3.
+      intros dm Hm Hadd. destruct (svc_table_with_manual m dm Hm Hadd) as (text' & t0 & Htext' & Ht & Hholds).
+      rewrite Htext in Htext'. inversion Htext' as [E]. rewrite <- E, <- Ett, ET in Ht. now inversion Ht.
     Qed.
   End Headline.
 End Compose.
 
 (* ================= non-vacuity: a concrete registry state through all layers ================= *)
 Definition ex_tags : list str := [bs "urlprefix-Foo.com/good"; bs " urlprefix-/two "; bs "blue"].
+Definition ex_bad_tags : list str := [bs "urlprefix-/bad"; bs "a""b"].
 Definition ex_reg (id : string) (addr : string) : reg :=
   {| g_name := bs "good"; g_id := bs id; g_addr := bs addr; g_node_addr := bs "192.168.0.1"; g_port := 80%Z;
      g_tags := ex_tags |}.
-Definition ex_rcat : list rentry := [mkREntry (bs "n1") (ex_reg "s1" "10.0.0.1"); mkREntry (bs "n2") (ex_reg "s2" "10.0.0.2")].
+(* a healthy instance whose registration the command language cannot express (a tag with a
+   double quote): its command is dropped by build, on its own *)
+Definition ex_bad_reg : reg :=
+  {| g_name := bs "bad"; g_id := bs "s3"; g_addr := bs "10.0.0.3"; g_node_addr := bs "192.168.0.3"; g_port := 80%Z;
+     g_tags := ex_bad_tags |}.
+Definition ex_rcat : list rentry :=
+  [mkREntry (bs "n1") (ex_reg "s1" "10.0.0.1"); mkREntry (bs "n2") (ex_reg "s2" "10.0.0.2"); mkREntry (bs "n3") ex_bad_reg].
 Definition ex_checks : list hcheck :=
   [mkCheck (bs "n1") (bs "service:s1") (bs "s1") (bs "good") (bs "passing") ex_tags;
    mkCheck (bs "n2") (bs "service:s2") (bs "s2") (bs "good") (bs "critical") ex_tags;
+   mkCheck (bs "n3") (bs "service:s3") (bs "s3") (bs "bad") (bs "passing") ex_bad_tags;
    mkCheck (bs "n1") (bs "serfHealth") [] [] (bs "passing") []].
 
 Example registry_table_nonvacuous :
   consistent ex_checks ex_rcat
-  /\ (forall r, In r ex_rcat -> expressible all_print pweight_dec idcanon anyglob env_dc pfx (r_reg r) = true)
+  /\ expressible pweight_dec idcanon anyglob env_dc pfx (ex_reg "s1" "10.0.0.1") = true
+  /\ expressible pweight_dec idcanon anyglob env_dc pfx ex_bad_reg = false
   /\ inst_healthy [bs "passing"] false ex_checks (mkREntry (bs "n1") (ex_reg "s1" "10.0.0.1"))
   /\ ~ inst_healthy [bs "passing"] false ex_checks (mkREntry (bs "n2") (ex_reg "s2" "10.0.0.2"))
-  /\ exists t, (do text <- registry_config all_print env_dc pfx [bs "passing"] false ex_checks ex_rcat;
+  /\ inst_healthy [bs "passing"] false ex_checks (mkREntry (bs "n3") ex_bad_reg)
+  /\ exists t, (do text <- registry_config pweight_dec idcanon anyglob env_dc pfx [bs "passing"] false ex_checks ex_rcat;
                 new_table pweight_dec idcanon anyglob text)%outcome = Ok t
        /\ map (fun x => (fst (fst x), snd (fst x), t_url (snd x))) (flat t)
           = [(bs "foo.com", bs "/good", bs "http://10.0.0.1:80/"); ([], bs "/two", bs "http://10.0.0.1:80/")].
 Proof.
-  split; [|split; [|split; [|split]]].
+  split; [|split; [|split; [|split; [|split; [|split]]]]].
   - intros c r Hc Hr Hn Hs.
     repeat (destruct Hc as [<-|Hc]; [repeat (destruct Hr as [<-|Hr]; [try reflexivity; try (vm_compute in Hs; discriminate); try (vm_compute in Hn; discriminate)|]); try destruct Hr|]); destruct Hc.
-  - intros r [<-|[<-|[]]]; vm_compute; reflexivity.
+  - vm_compute; reflexivity.
+  - vm_compute; reflexivity.
   - split; [eexists; split; [left; reflexivity|]; repeat split; vm_compute; reflexivity|].
     apply healthy_b_spec. vm_compute. reflexivity.
   - intros [_ H]. apply healthy_b_spec in H. vm_compute in H. discriminate.
+  - split; [eexists; split; [right; right; left; reflexivity|]; repeat split; vm_compute; reflexivity|].
+    apply healthy_b_spec. vm_compute. reflexivity.
   - eexists. split; vm_compute; reflexivity.
 Qed.
